@@ -557,7 +557,7 @@ func (e *Env) call(x *Expr) Val {
 	for i, a := range x.Args {
 		args[i] = e.eval(a)
 	}
-	if !f.Rec && !f.Opaque {
+	if !f.Rec && !f.Opaque && !e.g.axiomatized(e.v, f) {
 		// macro expansion
 		if e.depth > 40 {
 			specErr("spec function expansion too deep at %s", x.Name)
